@@ -714,7 +714,12 @@ def raising_subscriber_sweep(res: Result, owner: str = "C12", only: str | None =
                         continue
                     w = ConnWorld(noise=noise, keepalive=1e6)
                     try:
-                        w.connect_fully()
+                        try:
+                            w.connect_fully()
+                        except HarnessError:
+                            if owner != "C12":
+                                continue  # the plain connect sequence itself fails on this tree: the owner's own exploration reports it
+                            raise
                         conn = w.conn
                         calls: list[tuple[int, float]] = []
 
